@@ -82,10 +82,15 @@ const (
 	PolicyHashed                  // H(seed, prio, label, occ)
 	PolicyClass                   // priority per label class (systematic starvation of some classes)
 	PolicyReverse                 // highest label first
+	// PolicyNode: one persistent priority per job attempt (all operations of a tier2 job move together, so whole
+	// jobs finish in a seeded permutation of their launch order) and per label class elsewhere; at seeded
+	// (label, occurrence) change points the unit that was about to run is demoted below everything else
+	// (the priority-change points of probabilistic concurrency testing, addressed order-insensitively).
+	PolicyNode
 )
 
 func (p Policy) String() string {
-	return [...]string{"canonical", "hashed", "class", "reverse"}[p]
+	return [...]string{"canonical", "hashed", "class", "reverse", "node"}[p]
 }
 
 // FaultPlan describes which fault kinds are enabled and how often (per 1000 eligible sites).
@@ -131,6 +136,7 @@ type Sim struct {
 	keepText   bool
 	start      time.Time
 	lastFault  int // step of last injected fault
+	demoted    map[string]uint64 // PolicyNode: unit -> demotion rank (later demotions rank lower)
 	// Observers
 	OnStep func(s *Sim, label string)
 }
@@ -292,8 +298,23 @@ func (s *Sim) prio(t *task) uint64 {
 	case PolicyClass:
 		c := H(s.Seed, "cls", labelClass(t.label)) >> 16 << 16
 		return c | (H(s.Seed, "prio", t.label, fmt.Sprint(t.occ)) & 0xffff)
+	case PolicyNode:
+		u := schedUnit(t)
+		low := H(s.Seed, "prio", t.label, fmt.Sprint(t.occ)) & 0xffff
+		if r, ok := s.demoted[u]; ok {
+			return (1<<30-r)<<16 | low // below every undemoted unit (those have bit 63 set), later demotions lower
+		}
+		return 1<<63 | H(s.Seed, "unit", u)>>17<<16 | low
 	}
 	return 0
+}
+
+// schedUnit is the unit that carries a persistent priority under PolicyNode.
+func schedUnit(t *task) string {
+	if strings.HasPrefix(t.node, "t2[") {
+		return t.node
+	}
+	return labelClass(t.label)
 }
 
 func (s *Sim) choose(P []*task) *task {
@@ -444,6 +465,12 @@ func (s *Sim) Drive(done <-chan struct{}, maxSteps int, idleLimit time.Duration)
 			}
 		}
 		s.steps++
+		if s.Policy == PolicyNode && H(s.Seed, "demote", t.label, fmt.Sprint(t.occ))%1000 < 12 {
+			if s.demoted == nil {
+				s.demoted = map[string]uint64{}
+			}
+			s.demoted[schedUnit(t)] = uint64(len(s.demoted)) + 1
+		}
 		d := s.faultFor(t)
 		// crash scheduled for this node at its n-th released operation?
 		killNow := false
